@@ -49,7 +49,7 @@ BUDGET = {"quick": 50, "thorough": 450}
 NCASES = {"quick": 3000, "thorough": 60000}
 FLOORS = {"quick": {"case_held": 400, "nontrivial": 300, "curved_held": 40}, "thorough": {"case_held": 8000, "nontrivial": 6000, "curved_held": 500}}
 INTERNAL_ERRORS = (IndexError, KeyError, AttributeError, TypeError, UnboundLocalError, NameError, AssertionError)
-VARIANTS = ["whole", "whole", "component", "tuple", "auto", "second", "cd", "coef-direction", "mixed-split", "tuple-mixedarg", "tuple-auto", "two-derivatives"]
+VARIANTS = ["whole", "whole", "component", "tuple", "auto", "second", "cd", "coef-direction", "mixed-split", "tuple-mixedarg", "tuple-auto", "two-derivatives", "row-direction"]
 COVER_FLOORS = {"quick": {"variants_held": ["whole", "component", "tuple", "auto", "second", "coef-direction", "tuple-mixedarg", "tuple-auto"]}, "thorough": {"variants_held": ["whole", "component", "tuple", "auto", "second", "coef-direction", "cd", "mixed-split", "tuple-mixedarg", "tuple-auto"]}}
 CELLS = [("interval", 1), ("triangle", 2), ("triangle", 2), ("triangle", 3), ("tetrahedron", 3)]
 
@@ -161,10 +161,28 @@ def case(ctx, i, rng, curved=None):
             wname = rng.choice([n for n in names if U.spaces[n].value_shape != ()])
         if variant == "mixed-split":
             wname = rng.choice([n for n in names if n.startswith("Mix")])
+        if variant == "row-direction":
+            wname = rng.choice([n for n in names if len(U.spaces[n].value_shape) == 2])
         w = U.coef(wname, 0)
         G.extra = [w]
         G.extra_prob = 0.5
+        twin = variant in ("whole", "second", "coef-direction") and rng.random() < 0.25
+        if twin:
+            # a labelled variable that depends on w; below, replace() makes a second variable with the SAME label and
+            # another operand (psi(u) and psi(u_old) of a time stepper), and both are differentiated in one expansion
+            wc = w[tuple(rng.randrange(d) for d in w.ufl_shape)] if w.ufl_shape else w
+            Gs = Gen(U, rng, cplx=cplx, deriv=0, cond=False, math=rng.random() < 0.5, geom=False)
+            s_var = ufl.variable(1 + wc * wc + Gs.expr((), 1))
+            G.extra = [w, s_var, s_var]
+            G.extra_prob = 0.6
         F = G.expr((), rng.choice([2, 3, 3]))
+        if twin:
+            from ufl.algorithms import replace
+
+            w_old = U.coef(wname, 2)
+            F_old = replace(F, {w: w_old})
+            F = rng.choice([lambda: F + F_old, lambda: 0.5 * (F + F_old), lambda: F * F_old + F_old])()
+            ctx.count("twin_label_cases")
         nxt = max_arg_number(F) + 1
         cd = None
         if variant in ("whole", "second", "cd", "mixed-split"):
@@ -181,6 +199,23 @@ def case(ctx, i, rng, curved=None):
             v = U.arg(sname, nxt) if rng.random() < 0.7 else U.coef(sname, 1)
             args = (F, w[comp], v)
             frames.append(((("comp", w, comp),), (v,), ()))
+        elif variant == "row-direction":
+            # the direction is a tensor written row by row: one row is a whole vector (an argument placed as a row, or the
+            # components of a tensor argument, which UFL folds to a slice), the other rows are zero; F contains grad(w)
+            m_, n_ = w.ufl_shape
+            gw = ufl.grad(w)(rng.choice("+-")) if U.interior else ufl.grad(w)
+            F = F + rng.choice([lambda: ufl.inner(gw, gw), lambda: gw[0, n_ - 1, 0] * gw[m_ - 1, 0, 0], lambda: ufl.inner(gw, gw) * F])()
+            nxt = max_arg_number(F) + 1
+            r_ = rng.randrange(m_)
+            vecs = [n for n in names if tuple(U.spaces[n].value_shape) == (n_,)]
+            if vecs and rng.random() < 0.5:
+                q = U.arg(rng.choice(vecs), nxt) if rng.random() < 0.7 else U.coef(rng.choice(vecs), 1)
+            else:
+                Vt = U.arg(wname, nxt)
+                q = [Vt[r_, c_] for c_ in range(n_)]
+            D = ufl.as_tensor([q if k_ == r_ else [0] * n_ for k_ in range(m_)])
+            args = (F, w, D)
+            frames.append(((w,), (D,), ()))
         elif variant == "tuple":
             w2name = rng.choice(names)
             w2 = U.coef(w2name, 1)
